@@ -21,8 +21,8 @@ IsMissingOut(o) == o.k = "err" /\ o.cls \in {"MissingNode", "MissingChild"}
 (* response from an unknown node must still be refused identically.                                      *)
 HeartbeatException(ev, x, y, older, newer) ==
     /\ ev.k = "recv" /\ ev.cmd = C_INTERNAL /\ ev.t = I_HEARTBEAT_RESPONSE /\ newer = "2.2" /\ older # "2.2"
-    /\ x.out.k = "yield" /\ y.out.k = "yield"           \* handled on both sides (known node, usable payload):
-                                                          \* the sleeping flag may differ from here on
+    /\ ~IsMissingOut(x.out) /\ ~IsMissingOut(y.out)      \* the node is known: the sleeping flag may differ from here on
+                                                          \* (also when the payload was unusable: 5.3, the flag may be set already)
 
 A(i) == Runs[rid].a[i]
 B(i) == Runs[rid].b[i]
@@ -46,7 +46,8 @@ TStep ==
     /\ IF \/ Major(Older) # Major(Newer) /\ (IsMissingOut(A(l).out) \/ IsMissingOut(B(l).out))
           \/ HeartbeatException(A(l), A(l), B(l), Older, Newer)
        THEN /\ l' = Len(Runs[rid].a) + 1              \* an unknown reference ends the comparable part
-            /\ HeartbeatException(A(l), A(l), B(l), Older, Newer) => ExceptionSidesOK(A(l), B(l), Newer)
+            /\ (HeartbeatException(A(l), A(l), B(l), Older, Newer) /\ A(l).out.k = "yield" /\ B(l).out.k = "yield")
+                   => ExceptionSidesOK(A(l), B(l), Newer)
        ELSE (Agree(A(l), B(l)) /\ l' = l + 1)
     /\ rid' = rid
 TInit == rid \in 1..Len(Runs) /\ l = 1
